@@ -17,6 +17,7 @@
 (*   k = "item"   a = F1 `name: d`  F2 `name (t): d`  F3 `(t): d`          *)
 (*                    F4 `: d`  F5 no colon  F6 `name(sig): d`   ind > 0   *)
 (*   k = "fence"  ``` at any indent      k = "prompt"  >>> at ind > 0      *)
+(*                a = "flags": with a `# doctest: +FLAG` comment (a colon)  *)
 (*   ind = number of leading spaces, in {0, 4, 6, 8}                       *)
 (*                                                                         *)
 (* Offsets are 0-based as in the code: L(i) is lines[i].  Every read of    *)
@@ -31,14 +32,17 @@
 (* assignment follows exactly one lazy path, so the exploration covers     *)
 (* the full product; the emitted case lists what was read, the harness     *)
 (* replays every candidate parent and several fillings of unread options.  *)
+(* A test of the form `option and parent is P` that comes out false is     *)
+(* recorded as the excluded pair <<option, P>> instead of being split in   *)
+(* two (option false / parent not P): both continue identically.           *)
 (***************************************************************************)
 EXTENDS Integers, Sequences, FiniteSets, TLC, Json
 
 CONSTANTS MaxLen,     \* seq mode: maximal number of lines
-          Alpha,      \* seq mode: "core" | "rich" | "defect"
+          Alpha,      \* seq mode: "core" | "mid" | "rich" | "defect"
           Mode,       \* "seq" (C12: arbitrary class sequences) | "struct" (C13: rendered structures)
           MaxSecs,    \* struct mode: number of sections after the summary
-          Variety,    \* struct mode: "full" | "thin" item variety
+          Variety,    \* struct mode: "full" | "thin" | "mini" item variety
           Emit        \* print one CASE per final state
 
 VARIABLES lines,      \* the docstring: sequence of line-class records (never changes)
@@ -46,8 +50,9 @@ VARIABLES lines,      \* the docstring: sequence of line-class records (never ch
           sig,        \* struct mode: per line, what the parent's signature supplies for the item it starts
           opts,       \* [option -> "U" | "T" | "F"]
           pcand,      \* candidate parent kinds (narrowed by every test the code makes)
+          excl,       \* negative path condition: pairs <<option, parent kind>> that must not hold together
           pc, offset, in_code, cur, sections, crash, flags
-vars == <<lines, expect, sig, opts, pcand, pc, offset, in_code, cur, sections, crash, flags>>
+vars == <<lines, expect, sig, opts, pcand, excl, pc, offset, in_code, cur, sections, crash, flags>>
 input == <<lines, expect, sig>>
 
 OptNames == {"ignore_init_summary", "returns_multiple_items", "returns_named_value",
@@ -69,17 +74,20 @@ Adm(t)     == [k |-> "adm", ind |-> 0, a |-> "-", t |-> t]
 Item(i, f) == [k |-> "item", ind |-> i, a |-> f, t |-> FALSE]
 FenceL(i)  == [k |-> "fence", ind |-> i, a |-> "-", t |-> FALSE]
 Prompt(i)  == [k |-> "prompt", ind |-> i, a |-> "-", t |-> FALSE]
+PromptF(i) == [k |-> "prompt", ind |-> i, a |-> "flags", t |-> FALSE]
 
 CoreKinds == {"parameters", "attributes", "returns", "receives", "examples"}
 Core == {Blank("e"), Text("plain"), Text("colon"), Adm(FALSE), FenceL(0), FenceL(4), Prompt(4)}
           \cup {Sec(K, FALSE) : K \in CoreKinds}
           \cup {Item(4, f) : f \in {"F1", "F4", "F5"}} \cup {Item(6, "F5"), Item(8, "F1"), Item(8, "F5")}
-Rich == Core \cup {Blank("w"), Adm(TRUE)} \cup {Sec(K, t) : K \in SecKinds, t \in BOOLEAN}
+\* every section kind, every item form; a title on one section kind and on admonitions (a title is carried, never tested)
+Mid == Core \cup {Blank("w"), Adm(TRUE), PromptF(4), Sec("parameters", TRUE)} \cup {Sec(K, FALSE) : K \in SecKinds}
           \cup {Item(4, f) : f \in {"F2", "F3", "F6"}} \cup {Item(6, "F1"), Item(8, "F4")}
+Rich == Mid \cup {Sec(K, TRUE) : K \in SecKinds}
 \* small alphabet on which the three known crashes are reachable with three lines
 Defect == {Text("plain"), Item(4, "F1"), Item(4, "F4"), Item(4, "F5"),
            Sec("returns", FALSE), Sec("receives", FALSE), Sec("attributes", FALSE), Sec("parameters", FALSE)}
-Alphabet == CASE Alpha = "core" -> Core [] Alpha = "rich" -> Rich [] OTHER -> Defect
+Alphabet == CASE Alpha = "core" -> Core [] Alpha = "mid" -> Mid [] Alpha = "rich" -> Rich [] OTHER -> Defect
 
 \* ---- predicates on lines (what the regexes / string tests of the code compute) ----------------------
 N == Len(lines)
@@ -94,6 +102,7 @@ Indented(ln) == ln.ind > 0                             \* line.startswith(" ") o
 HasColon(ln) == \/ ln.k \in {"sec", "adm"}
                 \/ ln.k = "item" /\ ln.a # "F5"
                 \/ ln.k = "text" /\ ln.a = "colon"
+                \/ ln.k = "prompt" /\ ln.a = "flags"
 TitleOf(ln) == IF ln.t THEN "given" ELSE "none"
 
 RECURSIVE RStripBlank(_)
@@ -137,29 +146,31 @@ ReadBlock(off) ==
 \* ---- item interpretation -----------------------------------------------------------------------------
 \* element record: first/body = consumed lines; name: "n" the name written on line `first`, "e" the empty string,
 \* "x" other text of the line, "-" the element type has no name; ann: "doc" the type written on line `first`,
-\* "sig" taken from the parent, "none", "x" other text of the line, "prev" value left over from an earlier item;
-\* dflt: "sig" | "none" | "-"
-El(it, name, ann, dflt) == [first |-> it.first, body |-> it.body, name |-> name, ann |-> ann, dflt |-> dflt]
-Form(it) == L(it.first).a
-IsItemLine(it) == L(it.first).k = "item"
+\* "sig" taken from the parent, "none", "x" other text of the line, "prev" value left over from an earlier item,
+\* "p" whatever the parent's return annotation supplies (seq mode); dflt: "sig" | "none" | "-";
+\* d: the description starts after the first colon of line `first` ("c") or is the whole line ("l")
+El(it, name, ann, dflt, d) == [first |-> it.first, body |-> RStripBlank(it.body), name |-> name, ann |-> ann, dflt |-> dflt, d |-> d]   \* description.rstrip("\n")
+\* form of the first line of an item: F1..F6 for item lines, F? for other lines with a colon (a prompt with doctest flags), F5 without
+Form(it) == LET ln == L(it.first) IN IF ln.k = "item" THEN ln.a ELSE IF HasColon(ln) THEN "F?" ELSE "F5"
 Accepted(it) == HasColon(L(it.first))                   \* `x, y = line.split(":", 1)` does not raise
 SigAnn(it) == IF sig[it.first + 1].ann THEN "sig" ELSE "none"
 SigDef(it) == IF sig[it.first + 1].def THEN "sig" ELSE "none"
 
 ParamEl(it) ==      \* _read_parameters
   LET f == Form(it) IN
-  CASE f = "F1" -> El(it, "n", SigAnn(it), SigDef(it))
-    [] f = "F2" -> El(it, "n", "doc", SigDef(it))          \* " " in name_with_type
-    [] f = "F4" -> El(it, "e", "none", "none")
-    [] OTHER    -> El(it, "x", "none", "none")             \* "(t)", "name(sig)": looked up by that text, not found
+  CASE f = "F1" -> El(it, "n", SigAnn(it), SigDef(it), "c")
+    [] f = "F2" -> El(it, "n", "doc", SigDef(it), "c")          \* " " in name_with_type
+    [] f = "F?" -> El(it, "x", "x", "none", "c")                \* " " in name_with_type, both parts are other text
+    [] f = "F4" -> El(it, "e", "none", "none", "c")
+    [] OTHER    -> El(it, "x", "none", "none", "c")             \* "(t)", "name(sig)": looked up by that text, not found
 NameSigEl(it) ==    \* functions / classes
   LET f == Form(it) IN
-  CASE f = "F1" -> El(it, "n", "none", "-")
-    [] f = "F6" -> El(it, "n", "doc", "-")
-    [] f = "F4" -> El(it, "e", "none", "-")
-    [] OTHER    -> El(it, "x", "x", "-")                   \* "(" in name_with_signature
-ModuleEl(it) == LET f == Form(it) IN El(it, IF f = "F1" THEN "n" ELSE IF f = "F4" THEN "e" ELSE "x", "-", "-")
-RaiseEl(it) ==  LET f == Form(it) IN El(it, "-", IF f = "F1" THEN "doc" ELSE IF f = "F4" THEN "e" ELSE "x", "-")
+  CASE f = "F1" -> El(it, "n", "none", "-", "c")
+    [] f = "F6" -> El(it, "n", "doc", "-", "c")
+    [] f = "F4" -> El(it, "e", "none", "-", "c")
+    [] OTHER    -> El(it, "x", "x", "-", "c")                   \* "(" in name_with_signature
+ModuleEl(it) == LET f == Form(it) IN El(it, IF f = "F1" THEN "n" ELSE IF f = "F4" THEN "e" ELSE "x", "-", "-", "c")
+RaiseEl(it) ==  LET f == Form(it) IN El(it, "-", IF f = "F1" THEN "doc" ELSE IF f = "F4" THEN "e" ELSE "x", "-", "c")
 
 RECURSIVE MapAccepted(_, _, _)
 MapAccepted(items, K, acc) ==
@@ -178,28 +189,29 @@ AttrFold(items, annvar, acc) ==
   IF items = <<>> THEN acc
   ELSE LET it == Head(items) f == Form(it) IN
        IF ~Accepted(it) THEN AttrFold(Tail(items), annvar, acc)
-       ELSE LET found == f = "F1" /\ sig[it.first + 1].ann
-                a == IF f = "F2" THEN "doc" ELSE IF found THEN "sig" ELSE annvar
-            IN AttrFold(Tail(items), IF a = "none" THEN "none" ELSE IF f = "F2" \/ found THEN "set" ELSE annvar,
-                        Append(acc, El(it, IF f \in {"F1", "F2"} THEN "n" ELSE IF f = "F4" THEN "e" ELSE "x",
-                                       IF a = "set" THEN "prev" ELSE a, "-")))
+       ELSE LET typed == f \in {"F2", "F?"}                       \* " " in name_with_type: annotation parsed from the line
+                found == f = "F1" /\ sig[it.first + 1].ann          \* docstring.parent[name].annotation
+                a == IF f = "F2" THEN "doc" ELSE IF f = "F?" THEN "x" ELSE IF found THEN "sig" ELSE IF annvar = "set" THEN "prev" ELSE "none"
+            IN AttrFold(Tail(items), IF typed \/ found THEN "set" ELSE annvar,
+                        Append(acc, El(it, IF f \in {"F1", "F2"} THEN "n" ELSE IF f = "F4" THEN "e" ELSE "x", a, "-", "c")))
 AttrEmptyLookup(items) == \E j \in 1..Len(items) : Accepted(items[j]) /\ Form(items[j]) = "F4"   \* docstring.parent[""]
 
 \* _get_name_annotation_description + annotation choice of the returns / yields / receives readers
 RetEl(it, named, multi) ==
-  LET ln == L(it.first)
-      f == IF ln.k = "item" THEN ln.a ELSE IF HasColon(ln) THEN "F1" ELSE "F5"
-      parentann == IF sig[it.first + 1].ann THEN "sig" ELSE "none"
-  IN IF named
-       THEN CASE f = "F1" -> El(it, "n", parentann, "-")
-              [] f = "F2" -> El(it, "n", "doc", "-")
-              [] f = "F3" -> El(it, "e", "doc", "-")
-              [] f = "F6" -> El(it, "x", "x", "-")
-              [] OTHER    -> El(it, "e", parentann, "-")      \* F4, F5: no name, no type -> name "" (name or "")
-       ELSE CASE f = "F1" -> El(it, "e", "doc", "-")          \* the text before the colon is the annotation
-              [] f = "F3" -> El(it, "e", "doc", "-")
-              [] f \in {"F2", "F6"} -> El(it, "e", "x", "-")
-              [] OTHER    -> El(it, "e", parentann, "-")      \* F4: annotation "" is falsy; F5: None
+  LET f == Form(it)
+      parentann == IF Mode = "seq" THEN "p" ELSE IF sig[it.first + 1].ann THEN "sig" ELSE "none"   \* "p": whatever the parent supplies
+  IN IF named        \* _RE_NAME_ANNOTATION_DESCRIPTION: `name? (type)?: desc`, else everything is the description
+       THEN CASE f = "F1" -> El(it, "n", parentann, "-", "c")
+              [] f = "F2" -> El(it, "n", "doc", "-", "c")
+              [] f = "F3" -> El(it, "e", "doc", "-", "c")
+              [] f = "F6" -> El(it, "n", "doc", "-", "c")         \* `name(sig): d`: the regex takes sig as the type
+              [] f = "F4" -> El(it, "e", parentann, "-", "c")
+              [] OTHER    -> El(it, "e", parentann, "-", "l")     \* F5, F?: the optional prefix does not match
+       ELSE CASE f = "F1" -> El(it, "e", "doc", "-", "c")         \* the text before the colon is the annotation
+              [] f = "F3" -> El(it, "e", "doc", "-", "c")
+              [] f \in {"F2", "F6", "F?"} -> El(it, "e", "x", "-", "c")
+              [] f = "F4" -> El(it, "e", parentann, "-", "c")     \* annotation "" is falsy
+              [] OTHER    -> El(it, "e", parentann, "-", "l")     \* F5: no colon
 
 \* ---- _read_examples_section: sub-sections of the block -----------------------------------------------------
 \* state: ex = in_code_example, cb = in_code_block, ct/ce = current_text / current_example (line lists)
@@ -244,12 +256,13 @@ CleandocFixedPoint(d) ==      \* inspect.cleandoc(d.rstrip()) == d
 Shapes == {"one", "two", "blank"}
 \* an item as written: named / typed, what the signature supplies, shape of the description
 ItemSpecs(K) ==
-  LET shapes == IF Variety = "full" THEN Shapes ELSE {"one", "blank"} IN
+  LET shapes == CASE Variety = "full" -> Shapes [] Variety = "thin" -> {"one", "blank"} [] OTHER -> {"blank"}
+      SA == IF Variety = "mini" THEN {FALSE} ELSE BOOLEAN IN
   CASE K \in {"parameters", "other_parameters"} ->
          {[named |-> TRUE, typed |-> ty, sann |-> sa, sdef |-> sd, shape |-> sh] :
-             ty \in BOOLEAN, sa \in BOOLEAN, sd \in (IF Variety = "full" THEN BOOLEAN ELSE {TRUE}), sh \in shapes}
+             ty \in BOOLEAN, sa \in SA, sd \in (IF Variety = "full" THEN BOOLEAN ELSE {TRUE}), sh \in shapes}
     [] K = "attributes" ->
-         {[named |-> TRUE, typed |-> ty, sann |-> sa, sdef |-> FALSE, shape |-> sh] : ty \in BOOLEAN, sa \in BOOLEAN, sh \in shapes}
+         {[named |-> TRUE, typed |-> ty, sann |-> sa, sdef |-> FALSE, shape |-> sh] : ty \in BOOLEAN, sa \in SA, sh \in shapes}
     [] K \in {"raises", "warns"} ->
          {[named |-> FALSE, typed |-> TRUE, sann |-> FALSE, sdef |-> FALSE, shape |-> sh] : sh \in shapes}
     [] K \in {"functions", "classes"} ->
@@ -258,15 +271,17 @@ ItemSpecs(K) ==
          {[named |-> TRUE, typed |-> FALSE, sann |-> FALSE, sdef |-> FALSE, shape |-> sh] : sh \in shapes}
     [] OTHER ->    \* returns / yields / receives
          {[named |-> nm, typed |-> ty, sann |-> sa, sdef |-> FALSE, shape |-> sh] :
-             nm \in BOOLEAN, ty \in BOOLEAN, sa \in BOOLEAN, sh \in shapes}
-ItemLists(K) == LET S == ItemSpecs(K) IN {<<a>> : a \in S} \cup (IF Variety = "full" THEN {<<a, b>> : a \in S, b \in S} ELSE {<<a, a>> : a \in S})
+             nm \in BOOLEAN, ty \in BOOLEAN, sa \in SA, sh \in shapes}
+ItemLists(K) == LET S == ItemSpecs(K) IN
+  {<<a>> : a \in S} \cup (CASE Variety = "full" -> {<<a, b>> : a \in S, b \in S} [] Variety = "thin" -> {<<a, a>> : a \in S} [] OTHER -> {})
 SectionSpecs ==
-  {[kind |-> K, title |-> t, items |-> il, shape |-> "one"] : K \in ItemKinds \cup RetKinds, t \in BOOLEAN, il \in ItemLists(K)}
+  UNION {{[kind |-> K, title |-> t, items |-> il, shape |-> "one"] : t \in BOOLEAN, il \in ItemLists(K)} : K \in ItemKinds \cup RetKinds}
   \cup {[kind |-> "examples", title |-> t, items |-> <<>>, shape |-> sh] : t \in BOOLEAN, sh \in {"one", "two"}}
   \cup {[kind |-> "admonition", title |-> t, items |-> <<>>, shape |-> sh] : t \in BOOLEAN, sh \in Shapes}
   \cup {[kind |-> "text", title |-> FALSE, items |-> <<>>, shape |-> sh] : sh \in Shapes}
 ThinSectionSpecs == {s \in SectionSpecs : s.title = FALSE \/ s.kind \in {"admonition", "parameters"}}
-Structs == UNION {[1..n -> (IF Variety = "full" THEN SectionSpecs ELSE ThinSectionSpecs)] : n \in 1..MaxSecs}
+MiniSectionSpecs == {s \in SectionSpecs : s.title = FALSE /\ (s.kind \in {"examples", "admonition", "text"} => s.shape = (IF s.kind = "examples" THEN "one" ELSE "blank"))}
+Structs == UNION {[1..n -> (CASE Variety = "full" -> SectionSpecs [] Variety = "thin" -> ThinSectionSpecs [] OTHER -> MiniSectionSpecs)] : n \in 1..MaxSecs}
 
 \* the options the layout depends on (named / multiple), chosen with the structure
 StructOpts == [returns_multiple_items : BOOLEAN, returns_named_value : BOOLEAN,
@@ -284,8 +299,21 @@ SecOK(s, so) ==
   /\ (s.kind \in RetKinds /\ ~MultiOf(s.kind, so)) => Len(s.items) = 1
   \* all items of a returns-like section share what the signature supplies (one return annotation)
   /\ (s.kind \in RetKinds /\ Len(s.items) = 2) => (s.items[1].sann = s.items[2].sann \/ s.items[1].typed \/ s.items[2].typed)
+\* one documented object must be able to supply everything the structure takes from it: at most one returns-like section asks
+\* for the return annotation (the others write their types), and not together with attribute annotations (a class has none)
+RetSann(s) == s.kind \in RetKinds /\ \E j \in 1..Len(s.items) : s.items[j].sann
+AttrSann(s) == s.kind = "attributes" /\ \E j \in 1..Len(s.items) : s.items[j].sann
+OneObject(st) ==
+  /\ Cardinality({j \in 1..Len(st) : RetSann(st[j])}) <= 1
+  /\ (\E j \in 1..Len(st) : RetSann(st[j])) =>
+        /\ \A m \in 1..Len(st) : (st[m].kind \in RetKinds /\ ~RetSann(st[m])) => \A i \in 1..Len(st[m].items) : st[m].items[i].typed
+        /\ ~\E m \in 1..Len(st) : AttrSann(st[m])
 StructOK(st, so) ==
   /\ \A j \in 1..Len(st) : SecOK(st[j], so)
+  /\ OneObject(st)
+  \* the four layout options are varied only when a section they govern is present
+  /\ ((\A j \in 1..Len(st) : st[j].kind \notin {"returns", "yields"}) => (so.returns_multiple_items /\ so.returns_named_value))
+  /\ ((\A j \in 1..Len(st) : st[j].kind # "receives") => (so.receives_multiple_items /\ so.receives_named_value))
   \* two text sections in a row are one text section; keep texts apart
   /\ \A j \in 1..Len(st) - 1 : ~(st[j].kind = "text" /\ st[j + 1].kind = "text")
   /\ st[1].kind # "text"                                       \* the summary is the text before section 1
@@ -318,7 +346,8 @@ RenderItems(K, items, so, base, acc) ==     \* acc = [lines, sig, els]; base = 0
            ls == <<Item(4, FormOf(K, it, so))>> \o dl
            sg == <<[ann |-> it.sann /\ ~it.typed, def |-> it.sdef]>> \o [j \in 1..Len(dl) |-> NoSig]
            el == [first |-> base, body |-> SeqFromTo(base + 1, base + Len(dl)),
-                  name |-> ExpName(K, it, so), ann |-> ExpAnn(K, it, so), dflt |-> ExpDef(K, it)]
+                  name |-> ExpName(K, it, so), ann |-> ExpAnn(K, it, so), dflt |-> ExpDef(K, it),
+                  d |-> IF FormOf(K, it, so) = "F5" THEN "l" ELSE "c"]
        IN RenderItems(K, Tail(items), so, base + Len(ls),
                       [lines |-> acc.lines \o ls, sig |-> acc.sig \o sg, els |-> Append(acc.els, el)])
 
@@ -377,6 +406,7 @@ InitStruct ==
     /\ pcand = {"function"}
 Init ==
   /\ IF Mode = "seq" THEN InitSeq ELSE InitStruct
+  /\ excl = {}
   /\ pc = "start" /\ offset = 0 /\ in_code = FALSE /\ cur = <<>> /\ sections = <<>>
   /\ crash = [exc |-> "", at |-> ""]
   /\ flags = [ignored |-> FALSE, propsum |-> FALSE]
@@ -388,15 +418,14 @@ Crash(exc, at) == /\ pc' = "crashed" /\ crash' = [exc |-> exc, at |-> at]
 \* ignore_summary = options["ignore_init_summary"] and parent is not None and parent.name == "__init__" and ...
 Start ==
   /\ pc = "start"
-  /\ \E ig \in BOOLEAN :
-       /\ CanRead("ignore_init_summary", ig)
-       /\ opts' = [opts EXCEPT !["ignore_init_summary"] = Val(ig)]
-       /\ IF ig
-            THEN \E isinit \in BOOLEAN :
-                   /\ Split({"init"}, isinit) # {} /\ pcand' = Split({"init"}, isinit)
-                   /\ offset' = IF isinit THEN 2 ELSE 0
-                   /\ flags' = [flags EXCEPT !.ignored = isinit]
-            ELSE pcand' = pcand /\ offset' = 0 /\ flags' = flags
+  /\ \E ignore_summary \in BOOLEAN :
+       IF ignore_summary
+         THEN /\ CanRead("ignore_init_summary", TRUE) /\ "init" \in pcand
+              /\ opts' = [opts EXCEPT !["ignore_init_summary"] = "T"] /\ pcand' = {"init"} /\ excl' = excl
+              /\ offset' = 2 /\ flags' = [flags EXCEPT !.ignored = TRUE]
+         ELSE /\ opts[("ignore_init_summary")] # "T" \/ pcand # {"init"}
+              /\ excl' = (IF opts[("ignore_init_summary")] = "F" \/ "init" \notin pcand THEN excl ELSE excl \cup {<<"ignore_init_summary", "init">>})
+              /\ UNCHANGED <<opts, pcand, flags>> /\ offset' = 0
   /\ pc' = "main"
   /\ UNCHANGED <<input, in_code, cur, sections, crash>>
 
@@ -423,7 +452,7 @@ MainIter ==
           THEN /\ pc' = (IF IsSection(ln) THEN "section" ELSE "admonition")                \* the reader runs next
                /\ UNCHANGED <<in_code, cur, offset>>
         ELSE /\ cur' = Append(cur, offset) /\ offset' = offset + 1 /\ pc' = "main" /\ in_code' = in_code
-  /\ UNCHANGED <<input, opts, pcand, sections, crash, flags>>
+  /\ UNCHANGED <<input, opts, pcand, excl, sections, crash, flags>>
 
 Return(secs, off) ==      \* back in the main loop: `offset += 1`
   /\ sections' = secs /\ offset' = off + 1 /\ cur' = <<>> /\ pc' = "main"
@@ -438,7 +467,7 @@ ReadItemsSection ==
          flushed == Flush(sections, cur)
      IN IF r.crash # "" THEN Crash(r.crash, "_read_block_items")
         ELSE Return(IF els # <<>> THEN Append(flushed, SecRec(K, TitleOf(L(offset)), offset, <<>>, els, <<>>)) ELSE flushed, r.off)
-  /\ UNCHANGED <<input, opts, pcand>>
+  /\ UNCHANGED <<input, opts, pcand, excl>>
 
 \* attributes: docstring.parent[name] - suppress(AttributeError, KeyError, TypeError) does not cover the ValueError
 \* raised by the empty name when there is a parent
@@ -455,7 +484,7 @@ ReadAttributesSection ==
                     ELSE Crash("ValueError", "attributes")
         ELSE /\ pcand' = pcand
              /\ Return(IF els # <<>> THEN Append(flushed, SecRec("attributes", TitleOf(L(offset)), offset, <<>>, els, <<>>)) ELSE flushed, r.off)
-  /\ UNCHANGED <<input, opts>>
+  /\ UNCHANGED <<input, opts, excl>>
 
 \* returns / yields / receives: _read_block_items_maybe(multiple=...), then one element per block item
 ReadReturnsSection ==
@@ -478,14 +507,14 @@ ReadReturnsSection ==
                     ELSE IF b.tl = <<>> THEN Crash("IndexError", K)
                     ELSE Return(Append(flushed, SecRec(K, TitleOf(L(offset)), offset, <<>>,
                                    <<RetEl([first |-> b.tl[1], body |-> Tail(b.tl)], named, FALSE)>>, <<>>)), b.off)
-  /\ UNCHANGED <<input, pcand>>
+  /\ UNCHANGED <<input, pcand, excl>>
 
 ReadExamplesSection ==
   /\ pc = "section" /\ L(offset).a = "examples"
   /\ LET b == ReadBlock(offset + 1) IN
      IF b.crash # "" THEN Crash(b.crash, "_read_block")
      ELSE Return(Append(Flush(sections, cur), SecRec("examples", TitleOf(L(offset)), offset, b.tl, NoItems, ExSubs(b))), b.off)
-  /\ UNCHANGED <<input, opts, pcand>>
+  /\ UNCHANGED <<input, opts, pcand, excl>>
 
 \* contents, offset = _read_block(docstring, offset=offset + 1)
 ReadAdmonition ==
@@ -497,30 +526,31 @@ ReadAdmonition ==
      ELSE \* no contents: `with suppress(IndexError): current_section.append(lines[offset])`, offset is the header again
           /\ cur' = (IF InRange(b.off) THEN Append(cur, b.off) ELSE cur) /\ offset' = b.off + 1 /\ pc' = "main"
           /\ UNCHANGED <<sections, in_code, crash, flags>>
-  /\ UNCHANGED <<input, opts, pcand>>
+  /\ UNCHANGED <<input, opts, pcand, excl>>
 
 \* after the loop: last text section, then returns_type_in_property_summary
-FirstNonBlank(tl) == LET S == {j \in 1..Len(tl) : ~IsBlank(L(tl[j]))} IN IF S = {} THEN -1 ELSE L(tl[CHOOSE j \in S : \A m \in S : j <= m])
+FirstNonBlank(tl) == LET S == {j \in 1..Len(tl) : ~IsBlank(L(tl[j]))} IN IF S = {} THEN -1 ELSE tl[CHOOSE j \in S : \A m \in S : j <= m]
 Finish ==
   /\ pc = "main" /\ offset >= N
   /\ LET secs == IF cur # <<>> THEN Append(sections, TextSec(RStripBlank(cur))) ELSE sections IN
-     \E rt \in BOOLEAN :
-       /\ CanRead("returns_type_in_property_summary", rt)
-       /\ opts' = [opts EXCEPT !["returns_type_in_property_summary"] = Val(rt)]
-       /\ IF rt /\ secs # <<>>
-            THEN \E isprop \in BOOLEAN :
-                   /\ Split({"property"}, isprop) # {} /\ pcand' = Split({"property"}, isprop)
-                   /\ IF ~isprop THEN /\ sections' = secs /\ pc' = "done" /\ UNCHANGED <<crash, flags>>
-                      \* sections[0].value.lstrip(): the value of a non-text section is a list / an element
-                      ELSE IF secs[1].kind # "text"
-                        THEN /\ pc' = "crashed" /\ crash' = [exc |-> "AttributeError", at |-> "property_summary"] /\ UNCHANGED <<sections, flags>>
-                      ELSE LET fl == FirstNonBlank(secs[1].tl) IN
-                           IF fl # -1 /\ HasColon(fl)
-                             THEN /\ sections' = Append(secs, SecRec("returns", "none", -1, <<>>,
-                                                    <<[first |-> -1, body |-> <<>>, name |-> "e", ann |-> "doc", dflt |-> "-"]>>, <<>>))
-                                  /\ flags' = [flags EXCEPT !.propsum = TRUE] /\ pc' = "done" /\ UNCHANGED crash
-                             ELSE /\ sections' = secs /\ pc' = "done" /\ UNCHANGED <<crash, flags>>
-            ELSE /\ pcand' = pcand /\ sections' = secs /\ pc' = "done" /\ UNCHANGED <<crash, flags>>
+     \* if returns_type_in_property_summary and sections and parent and parent.is_attribute and "property" in labels
+     \E property_summary \in BOOLEAN :
+       IF property_summary
+         THEN /\ secs # <<>> /\ CanRead("returns_type_in_property_summary", TRUE) /\ "property" \in pcand
+              /\ opts' = [opts EXCEPT !["returns_type_in_property_summary"] = "T"] /\ pcand' = {"property"} /\ excl' = excl
+              \* sections[0].value.lstrip(): the value of a non-text section is a list / an element
+              /\ IF secs[1].kind # "text"
+                   THEN /\ pc' = "crashed" /\ crash' = [exc |-> "AttributeError", at |-> "property_summary"] /\ UNCHANGED <<sections, flags>>
+                 ELSE LET fl == FirstNonBlank(secs[1].tl) IN
+                      IF fl # -1 /\ HasColon(L(fl))
+                        THEN /\ sections' = Append(secs, SecRec("returns", "none", -1, <<>>,
+                                               <<[first |-> -1, body |-> <<>>, name |-> "e", ann |-> "doc", dflt |-> "-", d |-> "c"]>>, <<>>))
+                             /\ flags' = [flags EXCEPT !.propsum = TRUE] /\ pc' = "done" /\ UNCHANGED crash
+                        ELSE /\ sections' = secs /\ pc' = "done" /\ UNCHANGED <<crash, flags>>
+         ELSE /\ secs = <<>> \/ opts["returns_type_in_property_summary"] # "T" \/ pcand # {"property"}
+              /\ excl' = (IF secs = <<>> \/ opts["returns_type_in_property_summary"] = "F" \/ "property" \notin pcand
+                            THEN excl ELSE excl \cup {<<"returns_type_in_property_summary", "property">>})
+              /\ sections' = secs /\ pc' = "done" /\ UNCHANGED <<opts, pcand, crash, flags>>
   /\ UNCHANGED <<input, offset, in_code, cur>>
 
 Next == Start \/ MainIter \/ ReadItemsSection \/ ReadAttributesSection \/ ReadReturnsSection \/ ReadExamplesSection
@@ -537,6 +567,10 @@ Final == Done \/ Crashed
 KnownCrashSites == {<<"IndexError", "returns">>, <<"IndexError", "yields">>, <<"IndexError", "receives">>,
                     <<"AttributeError", "property_summary">>, <<"ValueError", "attributes">>}
 NoCrash == ~Crashed
+\* one invariant per documented defect (checked - and violated - in DocGoogle_defect.cfg)
+NoIndexErrorSingleItemBlock == ~(Crashed /\ crash.exc = "IndexError" /\ crash.at \in RetKinds)
+NoAttributeErrorPropertySummary == ~(Crashed /\ crash.at = "property_summary")
+NoValueErrorEmptyAttributeName == ~(Crashed /\ crash.at = "attributes")
 NoCrashBeyondKnown == Crashed => <<crash.exc, crash.at>> \in KnownCrashSites
 
 \* C12-terminating: every step of the main loop (with or without a reader) moves the offset forward
@@ -547,7 +581,7 @@ OffsetBounded == offset <= N + 1
 \* C12-unmodified: the docstring is never written; what is known about options and parent only grows
 Unmodified == [][/\ UNCHANGED input
                  /\ \A o \in OptNames : opts[o] # "U" => opts'[o] = opts[o]
-                 /\ pcand' \subseteq pcand /\ pcand' # {}]_vars
+                 /\ pcand' \subseteq pcand /\ pcand' # {} /\ excl \subseteq excl']_vars
 
 \* C12-well-formed: kinds from the enumeration, values of the right shape, lines inside the docstring, no line used twice
 SecLines(s) == {s.tl[j] : j \in 1..Len(s.tl)} \cup UNION {{s.items[j].first} \cup {s.items[j].body[m] : m \in 1..Len(s.items[j].body)} : j \in 1..Len(s.items)}
@@ -557,7 +591,6 @@ WellFormed ==
             /\ (s.kind \in ItemKinds \cup RetKinds) => (s.items # <<>> /\ s.tl = <<>>)
             /\ (s.kind = "examples") => s.subs # <<>>
             /\ (s.kind = "admonition") => s.tl # <<>>
-            /\ (s.kind = "text" /\ ~(j = Len(sections))) => s.tl # <<>>
             /\ SecLines(s) \subseteq (0..N - 1) \cup {-1}
             /\ \A m \in 1..Len(sections) : m # j => (SecLines(s) \cap SecLines(sections[m])) \subseteq {-1}
 \* headers consumed as headers are not also text
@@ -566,7 +599,7 @@ HeadersNotText == Done => \A j, m \in 1..Len(sections) : sections[j].hdr = -1 \/
 \* C12-plain: no section syntax => exactly one text section made of all the lines
 NoSyntax == \A j \in 1..N : lines[j].k \notin {"sec", "adm"}
 PlainText == (Done /\ NoSyntax /\ ~flags.ignored /\ ~flags.propsum)
-                => sections = <<TextSec(SeqFromTo(0, N - 1))>>
+                => sections = <<TextSec(RStripBlank(SeqFromTo(0, N - 1)))>>
 
 \* C13: the sections are the structure that was written
 ParsesBack == (Mode = "struct" /\ Final) => (Done /\ sections = expect)
@@ -576,6 +609,9 @@ ParsesBackBeyondKnown == (Mode = "struct" /\ Final /\ ~(Done /\ AttrLeak)) => (D
 
 EmitCase ==
   (Emit /\ Final) =>
-     PrintT(<<"CASE", ToJson([lines |-> lines, opts |-> opts, pcand |-> pcand, outcome |-> pc, crash |-> crash,
-                              sections |-> sections, flags |-> flags, expect |-> expect, sig |-> sig])>>)
+     IF Mode = "seq"
+       THEN PrintT(<<"CASE", ToJson([lines |-> lines, opts |-> opts, pcand |-> pcand, excl |-> excl, outcome |-> pc, crash |-> crash,
+                                     sections |-> sections, flags |-> flags])>>)
+       ELSE PrintT(<<"CASE", ToJson([lines |-> lines, opts |-> opts, pcand |-> pcand, excl |-> excl, outcome |-> pc, crash |-> crash,
+                                     sections |-> sections, flags |-> flags, expect |-> expect, sig |-> sig])>>)
 =============================================================================
